@@ -310,7 +310,7 @@ theorem isInv_mappedIndex {p : List Nat} {r : Nat} (hr : 0 < r) (hp : p.Perm (Li
   have h1 : floorMap (metaArgsort (List.range p.length)) = List.range r := by
     rw [hl, ha]; exact floorMap_eq (isInv_range r)
   have e : mappedIndex p = invOf p := by
-    unfold mappedIndex
+    unfold mappedIndex mappedIndex2
     simp only [h0, h1]
     unfold findPermutation invOf
     rw [List.length_range, hl]
